@@ -31,6 +31,8 @@ NEIGHBOURS = [{"from": "C04", "limit": 1500, "why": "inherited postconditions as
 
 
 def cases(tier, rng):
+    for c in directed.post_init_inherits_cases():
+        yield "directed-post-init-inherits", c
     for c in directed.awaitable_kinds_cases():
         yield "directed-awaitable-kinds", c
     thorough = tier == "thorough"
